@@ -63,7 +63,7 @@ func (e *Env) recordExpire(pre V, evsBefore []interface{}, now time.Time, dirty 
 }
 
 // TTLScenarios builds the states through the driver API (validated like every other call) and runs passes.
-func TTLScenarios(mk func() *Env, each func(e *Env)) int {
+func TTLScenarios(mk func() *Env, each func(e *Env), fileDir string) int {
 	n := 0
 	now := time.Now()
 	vals := ttlValues(now)
@@ -81,6 +81,11 @@ func TTLScenarios(mk func() *Env, each func(e *Env)) int {
 	for _, set := range sets {
 		for round := 0; round < 2; round++ {
 			e := mk()
+			if fileDir != "" && round == 1 {
+				// second round on a file store: the TTL definitions must survive a reopen
+				e.Close()
+				e = OpenFile(e, fileDir, n)
+			}
 			e.Hist = n
 			n++
 			for _, ns := range []string{"d.c1", "d.c2"} {
@@ -109,6 +114,9 @@ func TTLScenarios(mk func() *Env, each func(e *Env)) int {
 			for _, ns := range []string{"d.c3", "d.c4", "e.c5", "e.c6"} {
 				e.Do(e.CreateIndex(ns, IndexSpec{Key: d("c", int32(1)), Expire: 60}))
 				e.Do(e.InsertMany(ns, []bson.D{d("_id", int32(1), "c", primitive.NewDateTimeFromTime(now.Add(time.Hour))), d("_id", int32(2), "c", "old")}, true))
+			}
+			if e.Path != "" {
+				e.Reopen()
 			}
 			e.ExpirePass()
 			e.ExpirePass() // nothing left to expire: must change nothing
